@@ -14,7 +14,8 @@ CONSTANTS Which, MaxSlots
 RECURSIVE JoinS(_, _)
 JoinS(args, i) == IF i > Len(args) THEN ""
                   ELSE (IF i > 1 THEN "," ELSE "") \o args[i] \o JoinS(args, i + 1)
-ApplyStr(n, args) == "f" \o ToString(n) \o "(" \o JoinS(args, 1) \o ")"
+ApplyStr(n, args) == IF \E i \in 1..Len(args) : args[i] \in {"!", "ERR"}      \* a poisoned argument: the function raises
+                     THEN "ERR" ELSE "f" \o ToString(n) \o "(" \o JoinS(args, 1) \o ")"
 DrawStr(d, r, pv) == "s" \o ToString(d) \o "<" \o ToString(r) \o ">(" \o JoinS(pv, 1) \o ")"
 
 KindA == <<"v", "p", "c", "c", "v", "p", "c">>
@@ -33,12 +34,13 @@ SubSeqs(s) == IF s = <<>> THEN {<<>>}
 
 Init ==
   /\ N = (IF Which = "A" THEN 7 ELSE 10)
+  /\ ord = [i \in 1..N |-> i]
   /\ kind = (IF Which = "A" THEN KindA ELSE KindB)
   /\ inp = (IF Which = "A" THEN InpA ELSE InpB)
   /\ LET v0 == [n \in 1..N |-> IF kind[n] = "v" THEN "a" ELSE None] IN
      val = [n \in 1..N |-> IF Transient(n) THEN None ELSE FreshUpTo(N, v0)[n]]
   /\ flag = [n \in 1..N |-> FALSE] /\ dirty = [n \in 1..N |-> FALSE]
-  /\ auto = TRUE /\ slots = <<>> /\ evald = {}
+  /\ auto = TRUE /\ slots = <<>> /\ evald = {} /\ raised = FALSE
 
 \* history variables: the last operation if it was a simulate, and the values before it
 VARIABLES lastsim, preval
